@@ -1,1 +1,110 @@
-//! gossipsim: see /verif/DESIGN.md
+//! gossipsim: deterministic simulation deciding property C17 — "the network graph holds only
+//! authentic, current gossip, whatever the order" — against the real
+//! `lightning::routing::gossip::{NetworkGraph, P2PGossipSync}` and `routing::utxo` code.
+//! See /verif/DESIGN.md §5 C17.
+
+pub mod model;
+pub mod sched;
+pub mod universe;
+pub mod world;
+
+use serde_json::Value;
+use simcore::{Rng, RunOutcome, Sim, Tier};
+use world::{Action, Config, World};
+
+pub struct GossipSim;
+
+pub const PROFILES: &[&str] = &["mixed", "chaos", "order"];
+
+fn run_world(mut wd: World, rng: Option<Rng>, trace: Option<Vec<Action>>, seed: u64) -> RunOutcome {
+	wd.out.seed = seed;
+	match trace {
+		Some(actions) => {
+			for a in actions.iter() {
+				if wd.dead {
+					break;
+				}
+				wd.apply(a);
+			}
+		},
+		None => {
+			let rng = rng.expect("rng");
+			let mut plan_rng = rng.fork("plan");
+			let mut sched_rng = rng.fork("schedule");
+			let mut sched = sched::Sched::new(&wd, &mut plan_rng);
+			let mut idle = 0;
+			// hard cap far above anything the generators produce
+			let cap = wd.cfg.max_steps * 4 + 2000;
+			while !wd.dead && !wd.finished && idle < 200 && wd.step < cap {
+				match sched.next(&wd, &mut sched_rng) {
+					Some(a) => {
+						if wd.apply(&a) {
+							idle = 0;
+						} else {
+							idle += 1;
+						}
+					},
+					None => break,
+				}
+			}
+		},
+	}
+	wd.finish()
+}
+
+fn bad(msg: String) -> RunOutcome {
+	let mut o = RunOutcome::default();
+	o.harness_errors.push(msg);
+	o
+}
+
+impl Sim for GossipSim {
+	fn name(&self) -> &'static str {
+		"gossipsim"
+	}
+
+	fn run(&self, profile: &str, seed: u64, tier: Tier) -> RunOutcome {
+		if !PROFILES.contains(&profile) {
+			return bad(format!("gossipsim: unknown profile {:?}", profile));
+		}
+		let mut rng = Rng::new(seed);
+		let cfg = sched::gen_config(profile, &mut rng, tier);
+		let wd = World::new(cfg);
+		run_world(wd, Some(rng), None, seed)
+	}
+
+	fn replay(&self, replay: &Value) -> RunOutcome {
+		let cfg: Config = match serde_json::from_value(replay["config"].clone()) {
+			Ok(c) => c,
+			Err(e) => return bad(format!("bad replay config: {}", e)),
+		};
+		let trace: Vec<Action> = match serde_json::from_value(replay["trace"].clone()) {
+			Ok(t) => t,
+			Err(e) => return bad(format!("bad replay trace: {}", e)),
+		};
+		if cfg.n_nodes < 2 || cfg.n_nodes > 64 || cfg.chans.iter().any(|c| c.a >= cfg.n_nodes || c.b >= cfg.n_nodes || c.a == c.b) {
+			return bad("bad replay config: inconsistent universe".into());
+		}
+		let wd = World::new(cfg);
+		run_world(wd, None, Some(trace), 0)
+	}
+
+	fn components(&self) -> (Vec<String>, Vec<String>) {
+		(
+			vec![
+				"routing::gossip::NetworkGraph (update_*, handle_network_update, channel_failed_permanent, node_failed_permanent, remove_stale_channels_and_tracking[_with_time], read_only, Writeable/ReadableArgs, PartialEq)".into(),
+				"routing::gossip::P2PGossipSync (RoutingMessageHandler::handle_{channel_announcement,channel_update,node_announcement}, get_and_clear_pending_msg_events)".into(),
+				"routing::utxo::{PendingChecks, UtxoFuture} (asynchronous lookup bookkeeping, held messages)".into(),
+				"ln::msgs gossip message (de)serialisation (every handler delivery is encoded and decoded)".into(),
+				"libsecp256k1 signature verification".into(),
+				"util::verif simulated wall clock (hook H2), deterministic hashing (hook H1)".into(),
+			],
+			vec![
+				"UtxoLookup (SimLookup: answers sync/async with the real output, a wrong script, or an error, as the action says)".into(),
+				"the gossip network: node keys, funding keys, channels, every message (built and signed by the simulator)".into(),
+				"wall clock".into(),
+				"Logger (sink)".into(),
+			],
+		)
+	}
+}
